@@ -500,6 +500,30 @@ class Check:
         self.instances[bi:] = [i for i in self.instances[bi:] if i['verdict'] == 'OK']
         return res
 
+    def undecided_readback(self, label, fn, *args, **kw):
+        """Run a shape read-back when the evaluation that decides the same clause could NOT run (it was itself undecided): what the read-back reads as a deviation is not
+        confirmed by any evaluated input, so it is recorded as undecided (exit 2), never as a violation; its OK instances are kept."""
+        bf, bi = len(self.findings), len(self.instances)
+        res = None
+        try:
+            res = fn(*args, **kw)
+        except Unrecognised as exc:
+            self.unrec(exc.rule or label, exc.what, exc.where)
+        for f in self.findings[bf:]:
+            self.unrec(f.rule, f'shape read-back reads a deviation that no evaluation confirms (the deciding evaluation was itself undecided): {f.what[:200]}', f.file)
+        del self.findings[bf:]
+        self.instances[bi:] = [i for i in self.instances[bi:] if i['verdict'] == 'OK']
+        return res
+
+    def readback(self, decided):
+        """runner for a shape read-back of a clause that has a deciding evaluation: True (evaluation decided positively) -> advisory; False (the evaluation found a deviation) ->
+        armed, it explains the deviation; None (the evaluation was undecided) -> findings of the read-back are undecided too"""
+        if decided is None:
+            return self.undecided_readback
+        if decided:
+            return self.advisory
+        return lambda label, fn, *a, **k: self.guard(label, fn, *a, **k)
+
     # -- finish
     def finish(self, explanation, enumeration_rule, replay_key=None):
         # instance floors: a rule that matched fewer sites than confirmed by hand is broken, not passing
